@@ -125,6 +125,12 @@ fn near(r: &mut Rng, v: &str, lo: f64, hi: f64) -> Option<String> {
 
 pub fn gen_config(r: &mut Rng) -> Config {
     let mut c = gen_config_base(r);
+    if matches!(c.area_opt, Given::Valid(_)) && matches!(c.area_meta, Given::Valid(_)) && r.chance(1, 6) {
+        // tiny areas that differ by less than a thousandth of a m2: still two different values, the option wins
+        let (o, m) = *r.pick(&[("0.002", "0.0015"), ("0.0024", "0.0021"), ("0.0015", "0.002"), ("0.0011", "0.0019")]);
+        c.area_opt = Given::Valid(o.to_string());
+        c.area_meta = Given::Valid(m.to_string());
+    }
     if c.ffile == Some(true) && r.chance(1, 3) {
         // the file has its own RED1 line and the metadata give RED1 the value that is also the built-in default: it is
         // still a user value and beats the file
